@@ -52,3 +52,43 @@ def c16_masslumped(inp, obligation):
         if abs(got - want) > 1e-12 * want:
             bad.append("level vector %r: mass-lumped value %r, Gram diagonal %r" % (levels, got, want))
     return bool(bad), {"violations": bad}
+
+
+@handler("C16.r_matrix")
+def c16_r_matrix(inp, obligation):
+    """the real build_R_matrix (no mass lumping) on real uniform component grids without boundary points: every entry against the Gram entry of the two hats
+    (product of the 1-D mass factors 2h/3, h/6, 0) plus lambda on the diagonal"""
+    import itertools
+    import numpy as np
+    from sparseSpACE.GridOperation import DensityEstimation
+    from sparseSpACE.Grid import TrapezoidalGrid
+    dim = int(inp["dim"])
+    lvs = [[max(1, min(int(l), 3)) for l in inp["levelvec"]]] + ([[2], [3]] if dim == 1 else [[1, 2], [2, 1], [2, 3], [3, 2], [2, 2]])
+    lam = 0.125
+    bad = []
+    for lv in lvs:
+        op = object.__new__(DensityEstimation)
+        op.grid = TrapezoidalGrid(a=np.zeros(dim), b=np.ones(dim), boundary=False)
+        op.grid.setCurrentArea(np.zeros(dim), np.ones(dim), list(lv))
+        op.masslumping, op.lambd, op.debug, op.dim = False, lam, False, dim
+        op.log_util = type("L", (), {"log_debug": lambda *a, **k: None, "log_info": lambda *a, **k: None})()
+        Rm = np.asarray(DensityEstimation.build_R_matrix(op, list(lv)), dtype=float)
+        idx = list(itertools.product(*[range(1, 2 ** l) for l in lv]))
+        if Rm.shape != (len(idx), len(idx)):
+            bad.append("level vector %r: matrix of shape %r for %d grid points" % (lv, Rm.shape, len(idx)))
+            continue
+
+        def m1(l, p, q):
+            h = 2.0 ** (-l)
+            return 2.0 * h / 3.0 if p == q else (h / 6.0 if abs(p - q) == 1 else 0.0)
+        for i, p in enumerate(idx):
+            for j, q in enumerate(idx):
+                want = float(np.prod([m1(lv[m], p[m], q[m]) for m in range(dim)])) + (lam if i == j else 0.0)
+                if abs(Rm[i, j] - want) > 1e-12 * max(1.0, abs(want)):
+                    bad.append("level vector %r, hats %r and %r: R entry %r, Gram entry (+lambda on the diagonal) %r" % (lv, p, q, float(Rm[i, j]), want))
+                    break
+            if bad:
+                break
+        if bad:
+            break
+    return bool(bad), {"violations": bad[:3]}
